@@ -141,6 +141,12 @@ def _case(draw, ctx):
                 x[2] = [ren.get(f, f) for f in x[2]]
             for inst in spec["insts"]:
                 inst[2] = {k: ren.get(v, v) for k, v in inst[2].items()}
+    if prior is None and not dense and draw(st.integers(0, 9)) == 0:
+        # combinational feedback (rings and gates reading their own output) over and / or / xor / not / buf with
+        # at most two operands: both output styles must give back the identical graph
+        spec = draw(S.circuit_spec(min_inputs=1, max_inputs=3, min_gates=2, max_gates=7, max_fanin=2, cyclic=True, selfloops=True,
+                                   types=["and", "or", "xor", "not", "buf", "and", "or", "xor"], min_fanin_nary=2, consts=False,
+                                   io_outputs=True, name="fb"))
     route = draw(st.sampled_from(["string", "string", "string", "file_suffix", "file_fmt", "file_infer", "bad_suffix", "bad_fmt"]))
     tables = draw(st.lists(st.integers(0, (1 << 64) - 1), min_size=16, max_size=16))
     case = {"spec": spec, "beh": draw(st.booleans()), "route": route, "tables": tables,
@@ -248,7 +254,10 @@ def check(case, ctx):
     if bad:
         raise Violation("rt|lint", f"round-tripped circuit violates wiring rules {bad[:3]}{tail}")
     has_x = any(g.nodes[n]["type"] == "x" for n in g.nodes)
-    if not has_x:
+    cyc = refsim.has_cycle(c)
+    simple = cyc and not has_const and not c.blackboxes and all(
+        g.nodes[n]["type"] in ("input", "buf", "not") or (g.nodes[n]["type"] in ("and", "or", "xor") and len(g.pred[n]) == 2) for n in g.nodes)
+    if not has_x and not cyc:
         free = sorted(refsim.free_nodes(c))
         free2 = sorted(refsim.free_nodes(c2))
         if free != free2:
@@ -267,7 +276,7 @@ def check(case, ctx):
                 j = refsim.bits(v1[n] ^ v2[n])[0]
                 vv = {f: (asg[f] >> j) & 1 for f in free}
                 raise Violation("rt|function", f"{n!r} = {(v2[n] >> j) & 1} after the round trip, {(v1[n] >> j) & 1} before, under {vv} (behavioral={beh}){tail}")
-    if not has_const and not beh:
+    if (not has_const and not beh) or simple:
         if set(g2.nodes) != set(g.nodes):
             raise Violation("rt|identity_nodes", f"node sets differ: {sorted(set(g.nodes) ^ set(g2.nodes))}{tail}")
         for n in g.nodes:
@@ -287,8 +296,10 @@ def check(case, ctx):
     for nm, f in zip(["const", "blackbox", "escaped", "input_is_output", "one_input_nary", "fanin>=3"], feats):
         if f:
             labels.append(nm)
-    if not has_const and not beh:
+    if (not has_const and not beh) or simple:
         labels.append("identity_checked")
+    if cyc:
+        labels.append("feedback")
     if any(p[1] == [] for p in p1.values()):
         labels.append("unconnected_pin")
     nontriv = stt["n_gates"] >= 3 and len(stt["gate_types"]) >= 2 and any(feats)
